@@ -83,8 +83,10 @@ def build_cases(ctx, per_cell, deep):
                 else:
                     vb = ac.pick_value(rng, kb)
                 va = ac.pick_value(rng, ka)
-                if op in ("div", "mod") and k == 0 and ka in "il" and kb in "il":
-                    va, vb = (al.INT_MIN if ka == "i" else al.LONG_MIN), -1
+                if op in ("div", "mod") and k == 0 and ka in "ile" and kb in "ile":
+                    # MIN / -1 in every arm of expr_div_constred / expr_mod_constred, the three
+                    # enumerator arms included (keys <op>:<int|long|enum>_min/-1:constred)
+                    va, vb = (al.LONG_MIN if ka == "l" else al.INT_MIN), -1
                 if op in ("div", "mod") and k == 1:
                     vb = {"i": 0, "l": 0, "e": 0, "f": 0x80000000, "d": 0}.get(kb, vb)
                 add("b", ("B", op, ac.atom(ac.value_tree(ka, va)), ac.atom(ac.value_tree(kb, vb))))
